@@ -54,8 +54,13 @@ PARTIAL = [
     "A2 invariance under the eight symmetries is PROVED for every strategy and both searches (coreApplies_sym, "
     "insEnc_applies_sym, appliesByName_sym, findStrategies_sym, findStrategies_quick_sym) with has_finite_simples as "
     "the opaque input it is in the model: the slow search is invariant GIVEN the same verdict for the basis and its "
-    "image (findStrategies_sym_of_verdict); that PinWords.has_finite_simples itself is symmetry-invariant is C16's "
-    "business and is only evaluated here (sym8find lines of the slow search)",
+    "image (findStrategies_sym_of_verdict).  The hypothesis is now DISCHARGED in Props/C19Ext.lean: with the input "
+    "instantiated by C16's model of FinitelyManySimplesStrategy(basis).applies() (Model.C16.strategyApplies B = "
+    "has_finite_simples(frozenset(B))), strategyApplies_act proves that verdict invariant under the eight symmetries "
+    "(from C16.hasFiniteSimples_act_all + hasFiniteSimples_class_only_all, i.e. the Bassino-Bouvel-Pierrot-Rossin theorem "
+    "of C14) and findStrategies_sym_full proves find_strategies(g.B, long) = find_strategies(B, long) for both searches "
+    "with no hypothesis on the verdict.  Only evaluated: that the verdict the implementation returns is the one "
+    "Model.C16 computes (the C16 correspondence; in the C19 driver lines the verdict is still an input token)",
 ]
 TRUSTED = ["has_finite_simples verdict taken from the implementation (C16 models it)",
            "Basis(*perms) is modelled by sort + prune with the C01 containment model"]
